@@ -130,6 +130,8 @@ impl ReverseProxyListener {
             let (tx, rx) = channel(100);
             let io = setup_udp_session(self.target.clone(), self.bind, source, rx, false)
                 .context("setup session")?;
+            // the datagram that opens the session is its first datagram
+            tx.send(buf).await.context("send")?;
             self.sessions.insert(source, tx).await;
             let ctx = state
                 .contexts
